@@ -253,7 +253,11 @@ def concurrent_senders_round(port, size):
         linktests = [f for f in frames if f[9] == 5 and len(f) == 14]
         obs["frames_received"] = [len(f) for f in frames]
         obs["trailing_bytes_that_are_no_frame"] = len(data)
-        obs["stream_is_exactly_the_frames_sent"] = (len(data) == 0 and sorted(data_frames) == sorted(expected) and len(linktests) == 1 and len(frames) == 3)
+        # (next to the two data frames: the Linktest.req of this round, and - when the transfer takes long on a busy machine - further ones of the
+        # endpoint's own linktest timer or the Separate.req of the closing endpoint: complete 14-byte control frames between the data frames, never inside one)
+        others = [f for f in frames if f[9] != 0]
+        obs["stream_is_exactly_the_frames_sent"] = (len(data) == 0 and sorted(data_frames) == sorted(expected) and len(linktests) >= 1
+                                                    and all(len(f) == 14 and f[9] in (5, 9) for f in others))
         sock.close()
     finally:
         try:
@@ -560,7 +564,8 @@ def run(tier, replay=None):
         report.violation({"kind": "counterexample", "what": "the connection ended and the next one was established while a message was on its way: bytes of the message reached the new connection, "
                           "or success was reported although the connection it was started on did not get all of it", **swap}, True, tag="swap")
     # the same with an ACTIVE endpoint (its own socket set-up): a big message to a peer with a small receive window that pauses while the endpoint closes
-    for size in ([1 << 20] if tier == "quick" else [60000, 1 << 20, 3 << 20]):
+    # (not beyond the kernel's buffers: a peer that does not read blocks the Separate.req of the closing endpoint - and with it disable() - until it reads again)
+    for size in ([1 << 20] if tier == "quick" else [60000, 300000, 1 << 20]):
         k += 1
         obs = common.guarded(lambda size=size, k=k: loopback_round(common.own_port(k % 10), size, "small_reads", False, True, True), f"loopback: active endpoint, {size} bytes, closed right after the send", twedged, 120.0)
         if obs is None:
